@@ -26,6 +26,7 @@ type SQLEvent struct {
 	After     string
 	Fault     string
 	CallerGone bool // the caller's context had already ended when the statement was delivered
+	Issued     time.Duration // instant at which the caller issued the statement
 	It         *iterRec // state-handler invocation of Src that was open when the statement was issued (nil: none)
 	Aux        string   // for replica-status reads: what the server showed (role, threads)
 	CleanWrt   []string // for replica-status reads: servers whose holdings contain this server's executed set, if it showed no replication error
@@ -182,7 +183,7 @@ func (s *Sim) scheduleCall(c *call) {
 	if flt == "hang" {
 		s.trace("SQL-HANG %s %s", c.key, c.query)
 		// the statement was attempted: oracles see it as sent, never applied, never answered
-		s.mon.onSQL(&SQLEvent{Seq: s.evSeq, T: s.now(), Src: c.src, Dst: c.dst, Kind: queryKind(c.query), Query: c.query, Args: c.args, Mutating: isMutating(c.query), Fault: "hang", Err: "hang", It: c.it})
+		s.mon.onSQL(&SQLEvent{Seq: s.evSeq, T: s.now(), Src: c.src, Dst: c.dst, Kind: queryKind(c.query), Query: c.query, Args: c.args, Mutating: isMutating(c.query), Fault: "hang", Err: "hang", It: c.it, Issued: c.issued})
 		return
 	}
 	if strings.HasPrefix(flt, "slow:") {
@@ -296,7 +297,7 @@ func (s *Sim) deliverSQL(c *call, flt string) {
 		}
 	}()
 	s.stats.SQLCalls++
-	ev := &SQLEvent{Seq: s.evSeq, T: s.now(), Src: c.src, Dst: c.dst, Kind: queryKind(c.query), Query: c.query, Args: c.args, Mutating: isMutating(c.query), Fault: flt, It: c.it}
+	ev := &SQLEvent{Seq: s.evSeq, T: s.now(), Src: c.src, Dst: c.dst, Kind: queryKind(c.query), Query: c.query, Args: c.args, Mutating: isMutating(c.query), Fault: flt, It: c.it, Issued: c.issued}
 	if c.ctx != nil && c.ctx.Err() != nil {
 		ev.CallerGone = true
 	}
